@@ -127,7 +127,8 @@ def main():
     res, keeps = tlc_part(V, 'Transformers/keep', defs, dict(base, Part='"keep"'), ['KeepBoundaries', 'EmitKeep'], 'KEEP')
     # two renderings of the model's symbols (NaN, a, b, c) as input cells for x_tr_sqrt: plain values, and one in which
     # a and b are the two zeros (sqrt gives the texts '0.0' and '-0.0': distinct values of the emitted text column)
-    for rendering, sym in (('plain', {0: '-1', 1: '0', 2: '1', 3: '4'}), ('signed-zero', {0: '-1', 1: '0', 2: '-0.0', 3: '4'})):
+    # third rendering: symbol a is the EMPTY cell (parsed as 0, not as NaN - a column that is 75-80% empty is still emitted)
+    for rendering, sym in (('plain', {0: '-1', 1: '0', 2: '1', 3: '4'}), ('signed-zero', {0: '-1', 1: '0', 2: '-0.0', 3: '4'}), ('empty-cells', {0: '-1', 1: '', 2: '1', 3: '4'})):
         items = []
         for _, counts, keep, amb in keeps:
             vals = [sym[i] for i in range(4) for _ in range(counts[i])]
